@@ -143,6 +143,14 @@ def same_base_repeat(gen, items, rng):
         return None
     t1 = annot.tag(gen.spell(n), "/" + vals[0], n.path, role)
     t2 = annot.tag(gen.spell(n), "/" + vals[1], n.path, role)
+    if role == "ext" and rng.random() < 0.5:
+        # three siblings of one node: Word, a neighbour of it in alphabetical order, and word in another letter case;
+        # the first and the third are the same tag
+        w = rng.choice(["Qqmore", "Zzqext", "Vvthing"])
+        items.append(annot.group([annot.tag(gen.spell(n), "/" + w, n.path, role),
+                                  annot.tag(gen.spell(n), "/" + w[:-1] + chr(ord(w[-1]) + 1), n.path, role),
+                                  annot.tag(gen.spell(n), "/" + w.lower(), n.path, role), gen._plain_atom()]))
+        return items
     other = gen._plain_atom()
     g1 = annot.group([t1, t2, other])
     g2 = annot.group([copy.deepcopy(t2), copy.deepcopy(other), copy.deepcopy(t1)])
